@@ -239,6 +239,7 @@ let handle (line : string) : string =
     Printf.sprintf "%d,%d,%d %d,%d,%d,%d" (int_of_z r) (int_of_z g) (int_of_z b) (int_of_z r2) (int_of_z g2) (int_of_z b2) (int_of_z a2)
   | ["premul"; c; a] -> string_of_int (int_of_z (nrgba_premul (zi c) (zi a)))
   | ["img_transform"; kind; pix; stride; x0; y0; x1; y1; pcs] -> img_transform kind pix stride x0 y0 x1 y1 pcs
+  | ["linchan"; t; a] -> string_of_int (int_of_z (lin_channel_bits (z_of_int (int_of_string t)) (z_of_int (int_of_string a))))
   | ["alpha16"; a] -> string_of_int (int_of_z (alpha16_bits (z_of_int (int_of_string a))))
   | ["alpha8"; a] -> string_of_int (int_of_z (alpha8_bits (z_of_int (int_of_string a))))
   | ["meta_load"; which; d; sched; eofwd; fa; inf] -> load_inflate_table inf; meta_load which (bytes_of_hex d) sched eofwd fa
